@@ -93,6 +93,11 @@ func (c *Ctx) constructors() []*ctorInfo {
 					if seen[obj] {
 						return true
 					}
+					// the object under construction is not a source of its own fields
+					// (term.F = append(term.F, v) mentions term, whose literal mentions other parameters)
+					if namedOf(obj.Type()) == n && isPtr(obj.Type()) {
+						return true
+					}
 					if ds, ok := defs[obj]; ok {
 						seen[obj] = true
 						for _, d := range ds {
@@ -370,6 +375,23 @@ func ruleCTOR3(c *Ctx) []Obligation {
 			stores := 0
 			parentSet := false
 			for _, st := range fd.Body.List[1:] {
+				// recv.addHelper(v): a method of the receiver that stores its parameter into the
+				// receiver's container (and may set the parent)
+				if es, ok := st.(*ast.ExprStmt); ok {
+					if call, ok := es.X.(*ast.CallExpr); ok && len(call.Args) == 1 {
+						if id, ok := unparen(call.Args[0]).(*ast.Ident); ok && info.ObjectOf(id) == resObj {
+							if se, ok := unparen(call.Fun).(*ast.SelectorExpr); ok {
+								if rid, ok := unparen(se.X).(*ast.Ident); ok && info.ObjectOf(rid) == recvObj {
+									if hs, hp := c.storesParamIntoReceiver(calleeOf(info, call)); hs > 0 {
+										stores += hs
+										parentSet = parentSet || hp
+									}
+								}
+							}
+						}
+					}
+					continue
+				}
 				as, ok := st.(*ast.AssignStmt)
 				if !ok || len(as.Lhs) != 1 || len(as.Rhs) != 1 {
 					continue
@@ -429,4 +451,56 @@ func ruleCTOR3(c *Ctx) []Obligation {
 		obs = append(obs, o)
 	})
 	return obs
+}
+
+// storesParamIntoReceiver: for a one-parameter method, how many times it stores
+// its parameter into a field of its receiver (recv.F = append(recv.F, p) or
+// recv.F = p), and whether it sets p.Parent = recv.
+func (c *Ctx) storesParamIntoReceiver(m *types.Func) (stores int, parent bool) {
+	fd := c.funcDecl(m)
+	if m == nil || fd == nil || fd.Recv == nil || len(fd.Recv.List) != 1 || len(fd.Recv.List[0].Names) != 1 {
+		return 0, false
+	}
+	info := c.declPkg[fd].TypesInfo
+	recvObj := info.Defs[fd.Recv.List[0].Names[0]]
+	sig := m.Type().(*types.Signature)
+	if sig.Params().Len() != 1 {
+		return 0, false
+	}
+	param := sig.Params().At(0)
+	isParam := func(e ast.Expr) bool {
+		e = unparen(e)
+		if ta, ok := e.(*ast.TypeAssertExpr); ok {
+			e = unparen(ta.X)
+		}
+		id, ok := e.(*ast.Ident)
+		return ok && info.ObjectOf(id) == param
+	}
+	for _, st := range fd.Body.List {
+		as, ok := st.(*ast.AssignStmt)
+		if !ok || len(as.Lhs) != 1 || len(as.Rhs) != 1 {
+			continue
+		}
+		lhs, ok := unparen(as.Lhs[0]).(*ast.SelectorExpr)
+		if !ok {
+			continue
+		}
+		root, ok := unparen(lhs.X).(*ast.Ident)
+		if !ok {
+			continue
+		}
+		switch {
+		case info.ObjectOf(root) == recvObj:
+			if call, ok := as.Rhs[0].(*ast.CallExpr); ok && len(call.Args) == 2 && exprString(call.Fun) == "append" && exprString(call.Args[0]) == exprString(as.Lhs[0]) && isParam(call.Args[1]) {
+				stores++
+			} else if isParam(as.Rhs[0]) {
+				stores++
+			}
+		case info.ObjectOf(root) == param && lhs.Sel.Name == "Parent":
+			if id, ok := unparen(as.Rhs[0]).(*ast.Ident); ok && info.ObjectOf(id) == recvObj {
+				parent = true
+			}
+		}
+	}
+	return stores, parent
 }
